@@ -18,7 +18,7 @@ TITLE = 'concurrent builds do not influence each other'
 RULE = ('2-3 threads, each Builder() + add_source(own file, safe=own flag) + build() (+ Config(...)), over generated files with an include, '
         '!unsafe markers, nested includes with !path, a second source with the opposite safe flag, a raw string source with a filename, !eval / !xref '
         'nodes, a lazily included file, and failing inputs (parse error, missing include, merge error, failing !eval, unfilled !required), run under a generated schedule of <=200 '
-        '(thread, quantum) pairs with quanta biased to 1-20 line events inside the awesomeyaml package; half of the cases use twin bodies (same work, alternating safe flags), half of those a strict small-quantum round-robin from the first line on; non-trivial = >=3 context switches '
+        '(thread, quantum) pairs with quanta biased to 1-20 line events inside the awesomeyaml package; half of the cases start from an empty registry of scalar classes (as a fresh process would); half of the cases use twin bodies (same work, alternating safe flags), half of those a strict small-quantum round-robin from the first line on; non-trivial = >=3 context switches '
         'and threads differing in file and safe flag, or one thread failing; distinct = hash of the case')
 BUDGET = {'quick': (4, 60), 'thorough': (16, 1500)}
 SHRINK_CAP = {'quick': 60, 'thorough': 400}
@@ -55,7 +55,7 @@ def _case(draw):
         q = draw(st.integers(2, 5))
         sched = [(i, q) for _ in range(60) for i in range(n)][:200]
         tail = q
-    return {'bodies': bodies, 'schedule': [list(s) for s in sched], 'tail': tail}
+    return {'bodies': bodies, 'schedule': [list(s) for s in sched], 'tail': tail, 'fresh_types': draw(st.booleans())}
 
 
 def strategy():
@@ -123,9 +123,12 @@ def _body(path, safe, evaluate, kind='plain', text=None):
             b.add_source(os.path.join(os.path.dirname(path), 'over' + os.path.basename(path)[4:]), safe=not safe)
         tree = b.build()
         obs = []
+        from awesomeyaml.nodes.scalar import ConfigScalar
         for p, n in tree.ayns.nodes_with_paths(include_self=True):
-            val = n.ayns.native_value if type(n).__name__.startswith('ConfigScalar(') else type(n).__name__
-            obs.append((str(p), n.ayns.source_file, n.ayns.safe, repr(val)))
+            plain = type(n).__name__.startswith('ConfigScalar(')
+            val = n.ayns.native_value if plain else type(n).__name__
+            # (a plain scalar is an instance of *the* class registered for its type - copying and pickling rely on it)
+            obs.append((str(p), n.ayns.source_file, n.ayns.safe, repr(val), (type(n) is ConfigScalar(type(n)._dyn_base)) if plain else None))
         if evaluate:
             obs.append(('<evaluated>', repr(O.to_builtin(Config(tree)))))
         return obs
@@ -156,6 +159,13 @@ def run_case(case):
                 ref.append(_shape(('ok', fn())))
             except Exception as e:      # noqa
                 ref.append(_shape(('err', e)))
+        if case.get('fresh_types'):
+            # as in a process that has not built a config yet: the classes for plain scalars are made on first use
+            try:
+                from awesomeyaml.nodes.scalar import ConfigScalarMeta
+                ConfigScalarMeta._types.clear()
+            except Exception:       # noqa
+                pass
         try:
             results, sched = run_threads(bodies, [tuple(s) for s in case['schedule']], tail_quantum=case.get('tail', 40))
         except RuntimeError as e:
